@@ -91,6 +91,7 @@ struct Run {
 	int n_multi3 = 0, n_nreq_ok = 0, n_badfrag = 0, n_dup_twice = 0, n_realsoon = 0, n_tun_via_held = 0, n_long = 0;
 	int n_cache_same = 0, n_trunc = 0, n_lost_answers = 0, n_giveup = 0, n_raw = 0, n_recycled = 0, n_recycled_data_before_n = 0, n_c2c = 0, n_red_altdomain = 0, n_qr = 0;
 	uint64_t n_data_emits = 0;
+	uint64_t t_last_sent = 0;    // when the harness last handed a query to the network
 	std::vector<std::string> classes;
 };
 
@@ -380,6 +381,7 @@ struct Engine {
 
 	int record(Peer &p, uint16_t id, bool redelivery, int of, const sim::Addr &src, const std::string &name, uint16_t qtype)
 	{
+		R.t_last_sent = sim::W.now;
 		QRec r; r.t_sent = sim::W.now; r.src = src; r.id = id; r.name = name; r.qtype = qtype; r.peer = peer_index(p);
 		r.redelivery = redelivery; r.of = of;
 		refproto::Query qq; qq.ok = true; qq.name = name;
@@ -524,6 +526,9 @@ struct Engine {
 	void do_redeliver(Peer &p)
 	{
 		int me = peer_index(p);
+		// nothing may be in flight towards the server when the windows are read off: a query that arrives just before the repeat makes
+		// the server answer (and remember) the one it was holding, which shifts every window by one
+		if (R.t_last_sent && sim::W.now < R.t_last_sent + sim::W.latency_us + 100) sim::W.run_for(R.t_last_sent + sim::W.latency_us + 100 - sim::W.now);
 		// candidate windows
 		std::vector<int> cache, qd, qp, pend;
 		int r_extra = p.flips;
@@ -571,7 +576,22 @@ struct Engine {
 			sim::W.send(dg);
 			R.n_redeliver++;
 			note(fmt("re-deliver q#%d (%s, window %s) id=%u%s%s", of, o.ack.is_ping ? "ping" : "data", window == 1 ? "cache" : (window == 2 ? "qmem" : "pending"), id, other ? " from other address" : "", identical ? "" : " case changed"));
-			if (n + 1 < times) { sim::W.run_for(t.below(3000)); id = newid ? (uint16_t)(id + 1) : id; }
+			if (n + 1 < times) {
+				sim::W.run_for(t.below(3000)); id = newid ? (uint16_t)(id + 1) : id;
+				// while the simulation ran, more queries may have been answered: the original must still be inside the window it was
+				// picked from (the property speaks of the last 4 answered / last 15 data / 30 ping queries), else the repeats stop here
+				int cc2 = 0, cd2 = 0, cp2 = 0; bool still = window == 3;
+				if (window == 3) { still = R.q[of].answers == 0; }
+				else for (size_t k = p.saved_order.size(); k-- > 0 && !still;) {
+					int qi2 = p.saved_order[k]; const QRec &r2 = R.q[qi2];
+					if (r2.peer != me || r2.redelivery) continue;
+					bool in_c = cc2 < nc; cc2++;
+					bool in_q = r2.ack.is_ping ? cp2 < np : (r2.ack.is_data ? cd2 < nd : false);
+					if (r2.ack.is_ping) cp2++; else if (r2.ack.is_data) cd2++;
+					if (qi2 == of) { still = window == 1 ? in_c : (in_c || in_q); break; }
+				}
+				if (!still) break;
+			}
 		}
 	}
 };
